@@ -835,7 +835,11 @@ class Fxp():
                     val = val.astype(object)    # integers close to the 64 bits limits: the bias is subtracted with python integers
                 val = val - _bias
             if self.scale != 1:
-                val = val / _scale
+                if getattr(val, 'dtype', None) is not None and val.dtype.kind == 'c' and not isinstance(_scale, complex):
+                    # (each component by the real scale: the complex division of numpy multiplies by a rounded reciprocal, (49+49j) / 49 is not 1+1j)
+                    val = (val.real / _scale) + 1j * (val.imag / _scale)
+                else:
+                    val = val / _scale
 
             if self.bias != 0 or self.scale != 1:
                 self.scaled = True # update scaled flag
